@@ -249,8 +249,8 @@ Definition do_before (d : dom) (sib : nid) (c : nid + str) : dom :=
 (* "Remove all the children from node and append them to new_parent." *)
 Definition reparent (d : dom) (from to : nid) : dom :=
   let ks := kids d from in
-  let d1 := set_kids d from [] in
-  set_kids d1 to (kids d1 to ++ ks).
+  let d1 := set_kids d to (kids d to ++ ks) in
+  set_kids d1 from [].
 
 (* ----- maybe clone an option into selectedcontent (WHATWG) ----- *)
 
